@@ -100,14 +100,19 @@ def bfg_text(decls, header=''):
             L.append("%s = build_step(%r, cmd=%s%s%s)" % (
                 n, outs if len(outs) > 1 else outs[0], cmd,
                 ', always_outdated=True' if d['always'] else '', xd))
-        elif k == 'copy' and d['ins'][0]['t']:
-            L.append("%s = copy_file(%r, %s, mode=%r)" % (
-                n, 'cp_' + n + '.out', ref_expr(d['ins'][0], decls),
-                d.get('mode', 'copy')))
         elif k == 'copy':
-            L.append("%s = copy_file(source_file(%s%s))" % (
-                n, ref_expr(d['ins'][0], decls),
-                '' if d.get('dist', True) else ', dist=False'))
+            xd = ''
+            if d.get('xdeps'):
+                xd = ', extra_deps=[%s]' % ', '.join(
+                    ref_expr({'f': '', 't': x}, decls) for x in d['xdeps'])
+            if d['ins'][0]['t']:
+                L.append("%s = copy_file(%r, %s, mode=%r%s)" % (
+                    n, 'cp_' + n + '.out', ref_expr(d['ins'][0], decls),
+                    d.get('mode', 'copy'), xd))
+            else:
+                L.append("%s = copy_file(source_file(%s%s)%s)" % (
+                    n, ref_expr(d['ins'][0], decls),
+                    '' if d.get('dist', True) else ', dist=False', xd))
         elif k == 'alias':
             L.append("%s = alias(%r, [%s])" % (n, n, ', '.join(
                 ref_expr({'f': '', 't': x}, decls) for x in d['deps'])))
@@ -243,8 +248,8 @@ class Runner:
                 '.h' if f in ('h1', 'h2') or f.startswith('pch_') else '.c'))
         else:
             path = os.path.join(self.p.bld, self.outs[t])
-        if not os.path.exists(path):
-            return None
+        if not os.path.exists(path) or os.path.islink(path):
+            return None     # (touching a link would touch what it points to)
         os.utime(path)
         if t:       # a step with two outputs: both are modified
             d = [x for x in self.decls if x['name'] == t][0]
